@@ -42,7 +42,7 @@ Out(comb, items, n, pred, key) ==
     [] comb = "CompactEq" -> Wrap(Pick(s, CompactIdx(s, [v \in 1..3 |-> v])))
     [] comb = "Filter" -> Wrap(Pick(s, FilterIdx(s, pred)))
     [] comb = "First" -> Wrap(FirstF(s, n))
-    [] comb \in {"Flatten", "FlattenSlices", "Join"} -> Wrap(Flat(items))
+    [] comb \in {"Flatten", "FlattenSlices", "Join", "JoinNested"} -> Wrap(Flat(items))
     [] comb = "Map" -> Wrap(MapF(s))
     [] comb \in {"Runs", "RunsStale"} -> RunsF(s, key)   \* RunsStale: handles of earlier runs are polled again and add nothing
     [] comb = "RunsHeads" -> LET rs == RunsF(s, key) IN [i \in 1..Len(rs) |-> <<rs[i][1]>>]
